@@ -36,7 +36,9 @@ def model_params(cs):
     """parameters of the reference node model, incl. the generated limit parameters -> {wire: info}"""
     res = {}
     for p in cs['params']:
-        p = dict(p, T=classgen.effective_T(p))    # the configuration may move the limits declared in the class
+        p = dict(p, T=classgen.effective_T(p))    # the configuration may move the limits declared in the class ...
+        if 'cfg_export' in p:                      # ... and hide, show or rename the parameter
+            p['export'] = p['cfg_export']
         res[p['name']] = dict(p, wire=classgen.wire_name(p['name'], p.get('export', True)))
         lim = p.get('limits')
         extra = []
@@ -121,6 +123,8 @@ def driver_calls(rec, start, end):
 def numeric_value(T, x):
     if T['k'] == 'scaled':
         return x * T['scale']
+    if T['k'] == 'int' and isinstance(x, int) and not isinstance(x, bool):
+        return x      # exact: integers beyond 2**53 must not be compared as floats
     return float(x)
 
 
